@@ -164,6 +164,12 @@ func (e *Exec) setupTracks() {
 			if ti.sig == nil {
 				e.unsupported("track %s: func-typed parameter %s not found", tr.Name, tr.Target)
 			}
+		case "calltype":
+			// any dynamic call of a function value whose (named) type is the target
+			ti.sig, _ = sc.resolveType(tr.Target).Underlying().(*types.Signature)
+			if ti.sig == nil {
+				e.unsupported("track %s: %s is not a function type", tr.Name, tr.Target)
+			}
 		default:
 			e.unsupported("track kind %s", tr.Kind)
 		}
@@ -228,6 +234,10 @@ func (e *Exec) matchTracks(common *ssa.CallCommon) []*trackInfo {
 			}
 		case "fnparam":
 			if p, ok := common.Value.(*ssa.Parameter); ok && p.Name() == ti.target {
+				out = append(out, ti)
+			}
+		case "calltype":
+			if !common.IsInvoke() && common.StaticCallee() == nil && typeString(common.Value.Type()) == ti.target {
 				out = append(out, ti)
 			}
 		}
